@@ -352,8 +352,14 @@ class BuiltinMixin:
         return NONE
 
     def b_spec_ext(self, fr, f, args, kw, node):
-        n = z3.simplify(args[0].t)
-        return SBuiltin(n.as_string())
+        n = z3.simplify(args[0].t).as_string()
+        from . import modinfo
+        prefix, _, last = n.rpartition('.')
+        if prefix and modinfo.load(prefix) is not None:
+            v = self.mod_lookup(modinfo.load(prefix), last)
+            if v is not None:
+                return v
+        return SBuiltin(n)
 
     def b_iter(self, fr, f, args, kw, node):
         v = args[0]
